@@ -9,7 +9,7 @@
      BOUNDED   vm_compute over a finite domain, bound in the statement; not the claim *)
 From Coq Require Import List ZArith NArith Bool.
 From SopVerif Require Import OMap OMapProofs OMapProofs2 Btree BtreeSim BtreeProofs BtreeProofs2
-  BtreeBounded1 BtreeBounded2 BtreeBounded3 BtreeBounded4 BtreeWF BtreeLemmas BtreeCount Corr.C17.
+  BtreeBounded1 BtreeBounded2 BtreeBounded3 BtreeBounded4 BtreeWF BtreeLemmas BtreeCount BtreeShape Corr.C17.
 Import ListNotations.
 Local Open Scope Z_scope.
 
@@ -166,6 +166,23 @@ Proof.
   intros cfg R allowed H0 Hstep ops Hall. unfold sim_run. eapply sim_lift; eauto.
 Qed.
 Print Assumptions C17_refines_partial.
+
+(* PARTIAL, stage 1 of the inductive refinement, first part (closed): on EVERY pair of states related
+   by RelT - the node map forms a tree (BtreeShape.shape: any height, any slot length, nil children
+   and unbalanced branches allowed) whose in-order walk is the specification's item list - every
+   sequence of First / Last calls simulates.  Instance of C17_refines_partial with R = RelT.
+   Not covered: Next/Previous/Find* (stage 1, rest), Add (2), Remove (3). *)
+Theorem C17_refines_first_last : forall cfg b s ops, RelT b s -> Forall is_first_last ops ->
+  sim_from cfg b s ops = true.
+Proof. exact first_last_refines. Qed.
+Print Assumptions C17_refines_first_last.
+
+(* RelT is inhabited by a reachable three-node state (root split), and First/Last simulate there *)
+Theorem C17_first_last_nonvacuous :
+  let b := fst (brun (mkCfg 2 false false) empty_bstate [OAdd 1 1; OAdd 2 2; OAdd 3 3]) in
+  exists s, RelT b s /\ sim_from (mkCfg 2 false false) b s [OFirst; OLast; OLast; OFirst] = true.
+Proof. exact shaped_state. Qed.
+Print Assumptions C17_first_last_nonvacuous.
 
 (* BOUNDED (not the claim): every call sequence up to the stated length over the stated alphabet,
    by exhaustive evaluation inside Coq *)
